@@ -66,6 +66,7 @@ pub struct SynF {}
 #[unit(Alpha_Two, "α2", "documented")]
 #[unit(Mid, "m")]
 #[unit(Alpha, "α")]
+#[unit(delta_low, "δ")]
 pub struct SynN {}
 
 /// Single unit.
